@@ -169,6 +169,12 @@ def token_cases(draw):
         for _ in range(draw(st.integers(1, 4))):
             a1 = draw(st.sampled_from(sargs))
             out.append(draw(st.sampled_from(["ZS(%s) ;", "ZV(%s) ;", "ZV(%s, ZID(3)) ;", "ZC(%s, ZID(4)) ;", "ZW(%s) ;", "ZS( %s ) ;"])) % a1)
+        # the name of a function-like macro that is not invoked, last token of its line, followed at the start of the next
+        # line by something else, inside an argument that is expanded and then stringized: the line break is white space
+        out.append("#define ZXS(x) ZS(x)\n#define ZXW(x) ZS(x) x")
+        for _ in range(draw(st.integers(0, 3))):
+            out.append(draw(st.sampled_from(["ZXS(ZID\n-1) ;", "ZXS(a ZID\nb) ;", "ZXW(ZTWO\n+ ZONE) ;", "ZXS(ZID\n\n[3]) ;", "ZXS(ZID /*c*/\n- 2) ;", "ZXS((ZID\n, ZFST\n)) ;",
+                                             "ZXS(ZID\n ZID\n(4)) ;", "x ZID\ny ;", "ZS(ZID\n-1) ;"])))
         tails = ["ZPAIR, 9)", "ZONE)", "ZPAIR)", "ZONE, ZPAIR)", ", ZPAIR)", "ZNONE, ZNONE ZONE)", "(ZPAIR))", "ZCL", "ZONE ZCL", ", ZONE ZCL ZCL", "ZNONE ) ZONE"]
         heads = ["ZOPF", "ZOPI", "ZOPT", "ZOPV", "ZOPN (", "ZOPN ZNONE ("] + ([] if strict else ["ZOPS"])
         for _ in range(draw(st.integers(1, 5))):
